@@ -141,7 +141,7 @@ impl Prop for RandomHistory {
         12000
     }
     fn cases(&self, tier: Tier) -> u32 {
-        tier.pick(1_500, 40_000)
+        tier.pick(4_000, 80_000)
     }
     fn decode(&self, t: &mut Tape, _: Tier) -> Case {
         let base = gen_engine_case(t, 12, 8, false, GenOpts::default());
